@@ -27,8 +27,8 @@ func init() {
 		NotCovered: "promptness (timing); native methods that block without watching the thread's abort context (sleep, Mutex#lock, WaitGroup#wait, channel iteration): candidates located by reading, not armed.",
 	}
 	props["C12"] = &PropSpec{
-		Rules:      []string{"path/savedrestore-checker", "path/snapshot-first", "path/setter-restore", "cache/invalidate"},
-		Decides:    "that checker and compiler context (mode, flags, catch scopes, return/throw type, ...) which a function saves, changes and restores is restored on every exit path, from a snapshot that really is the value on entry (nothing has written the field before the snapshot is taken), that a function bracketing several fields does not reset a sibling field to a constant instead, that a part of a field set through a setter (one bit of the flags) is put back through the same setter when the whole field is not restored, and that memoised copies of the scope stacks are dropped when the stacks are swapped; a leak is exactly how an unused nested construct (a closure literal, a failed compatibility check) changes the verdict on the code that follows it.",
+		Rules:      []string{"path/savedrestore-checker", "path/snapshot-first", "path/setter-restore", "alias/snapshot-truncate", "cache/invalidate"},
+		Decides:    "that a saved slice-typed context (catch scopes, loops, scope stacks) is not emptied by re-slicing it in place, which would let the nested construct's pushes overwrite the snapshot through the shared backing array; that checker and compiler context (mode, flags, catch scopes, return/throw type, ...) which a function saves, changes and restores is restored on every exit path, from a snapshot that really is the value on entry (nothing has written the field before the snapshot is taken), that a function bracketing several fields does not reset a sibling field to a constant instead, that a part of a field set through a setter (one bit of the flags) is put back through the same setter when the whole field is not restored, and that memoised copies of the scope stacks are dropped when the stacks are swapped; a leak is exactly how an unused nested construct (a closure literal, a failed compatibility check) changes the verdict on the code that follows it.",
 		NotCovered: "renaming, parenthesisation, reordering of declarations: relations between two whole checker runs.",
 	}
 	props["C34"] = &PropSpec{
